@@ -23,7 +23,7 @@ type c08Case struct {
 	Connect string `json:"connect"` // "" both producers connected | sshd_only | audit_only | none (for signals / EOF of the connected pipe)
 }
 
-var c08Causes = []string{"sshd_eof", "audit_eof", "malformed_audit", "write_error",
+var c08Causes = []string{"sshd_eof", "audit_eof", "malformed_audit", "malformed_audit_then_login", "audit_eof_then_login", "write_error",
 	"sshd_not_fifo:regular", "sshd_not_fifo:missing", "sshd_not_fifo:dir",
 	"audit_not_fifo:regular", "audit_not_fifo:missing", "audit_not_fifo:dir", "sigterm", "sigint"}
 
@@ -185,6 +185,26 @@ func execC08(c c08Case) Outcome {
 				_, _ = w2.Write([]byte("this is not an audit record\n"))
 			} else {
 				fmt.Fprintln(aw, "this is not an audit record")
+			}
+		case "malformed_audit_then_login", "audit_eof_then_login":
+			// the audit side dies, then accepted logins arrive: their hand-off to the
+			// (dead) correlator must not keep the daemon alive
+			if c.Cause == "audit_eof_then_login" {
+				aw.Close()
+				aw = nil
+			} else if c.Load == "saturated" {
+				w2, e := d.openWriter(d.audPipe)
+				if e != nil {
+					panic(&infraError{e.Error()})
+				}
+				defer w2.Close()
+				_, _ = w2.Write([]byte("this is not an audit record\n"))
+			} else {
+				fmt.Fprintln(aw, "this is not an audit record")
+			}
+			for i := 0; i < 3; i++ {
+				fmt.Fprintf(sw, "%d Accepted password for late%d from 1.2.3.4 port 22 ssh2\n", 7000+i, i)
+				time.Sleep(time.Duration(c.DelayMs/3) * time.Millisecond)
 			}
 		case "write_error":
 			fmt.Fprintf(sw, "4242 Accepted password for u from 1.2.3.4 port 22 ssh2\n")
